@@ -181,6 +181,18 @@ class Job:
             self.last_leaves.append((leaf.kind, type(leaf.value).__name__ if isinstance(leaf.value, BaseException) else "", str(leaf.value)[:120]))
             if leaf.kind == "inconclusive":
                 self.errors.append("inconclusive path: %s" % (leaf.value,))
+            if leaf.kind == "returned" and os.environ.get("VERIF_AUTO_TWIN", "1") != "0":
+                # reachability witness of every returning leaf (the exploration keeps both sides of a branch whose feasibility query came
+                # back `unknown`): a leaf whose path condition is unsatisfiable would discharge everything vacuously -- it is dropped
+                t0 = time.time()
+                r = self._solver(list(assumptions) + list(leaf.pc), 2).check()
+                self.twin_time = getattr(self, "twin_time", 0.0) + time.time() - t0
+                if r == z3.unsat:
+                    self.paths["returned"] -= 1
+                    self.paths["infeasible"] += 1
+                    continue
+                if r == z3.sat:
+                    self.vacuity["checked"] += 1
             yield leaf
 
     def _profiled(self, fn):
